@@ -69,6 +69,66 @@ def stateAfter : St → List Op → St
   | st, [] => st
   | st, op :: ops => stateAfter (step st op).1 ops
 
+/-! ### the cluster client's dedicated client (cluster.go dedicatedClusterClient)
+
+The wire is acquired lazily by the first command (`acquire`), hooks set before that are kept pending
+(`c.pshks`) and installed at acquisition; release/Close set the mark but KEEP `c.wire`. Every method
+looks at the mark before it touches the wire. -/
+
+structure CSt where
+  mark : Bool := false
+  hasWire : Bool := false             -- c.wire != nil
+  pending : Option Hooks := none      -- c.pshks
+  hooks : Hooks := {}                 -- hooks installed on the wire
+  deriving DecidableEq, Repr
+
+/-- `acquire`: recycled clients are refused; the first call picks a wire and installs pending hooks -/
+def cacquire (st : CSt) : Option (CSt × List Call) :=
+  if st.mark then none
+  else if st.hasWire then some (st, [])
+  else match st.pending with
+    | some h => some ({ st with hasWire := true, pending := none, hooks := h }, [.wSetHooks h])
+    | none => some ({ st with hasWire := true }, [])
+
+def crelease (st : CSt) : CSt × List Call :=
+  if st.mark then (st, [])
+  else ({ st with mark := true, pending := none }, if st.hasWire then storeSeq st.hooks else [])
+
+def csetHooks (st : CSt) (h : Hooks) : CSt × List Call × Ret :=
+  if st.mark then (st, [], .recycled)
+  else if st.hasWire then ({ st with pending := none, hooks := h }, [.wSetHooks h], .ok)
+  else if h.isZero then ({ st with pending := none }, [], .ok)
+  else ({ st with pending := some h }, [], .ok)
+
+def cstep (st : CSt) : Op → CSt × List Call × Ret
+  | .do_ => match cacquire st with
+    | none => (st, [], .recycled)
+    | some (st1, cs) => (st1, cs ++ [.wDo], .ok)
+  | .doMulti n =>
+    if n == 0 then (st, [], .nilEmpty) else
+    match cacquire st with
+    | none => (st, [], .recycled)
+    | some (st1, cs) => (st1, cs ++ [.wMulti n], .ok)
+  | .receive => match cacquire st with
+    | none => (st, [], .recycled)
+    | some (st1, cs) => (st1, cs ++ [.wReceive], .ok)
+  | .setHooks h => csetHooks st h
+  | .setInv on =>
+    -- reads the current hooks first (`c.wire.GetPubSubHooks()`, a read, also on a recycled client)
+    let cur := if st.hasWire then st.hooks else st.pending.getD {}
+    let r := csetHooks st { cur with inv := on }
+    (r.1, (if st.hasWire then [.wGetHooks] else []) ++ r.2.1, r.2.2)
+  | .close =>
+    let cs := if st.hasWire && !st.mark then [.wClose] else []
+    let r := crelease st
+    (r.1, cs ++ r.2 ++ (if st.hasWire && !st.mark then [.poolDiscard] else []), .void)
+  | .release => let r := crelease st; (r.1, r.2, .void)
+
+/-- calls that change something on the wire (everything except reading the hooks) -/
+def Call.mutates : Call → Bool
+  | .wGetHooks => false
+  | _ => true
+
 /-! ### the retry loop of Do / DoMulti / Receive
 
 `retry: if err := c.check(); err != nil { return err }; resp = c.wire.X(…); if retryable { wait; goto retry }`.
